@@ -470,7 +470,7 @@ func TestC09(t *testing.T) {
 		V.HarnessError(t, "cannot start lab instance: %v", err)
 	}
 	n := 0
-	rcheck(t, "plans", V.N(8, 25), func(rt *rapid.T) {
+	rcheck(t, "plans", V.N(8, 14), func(rt *rapid.T) {
 		plan := c09Plan{
 			Procs:      rapid.SampledFrom([]int{2, 4, 8, 16}).Draw(rt, "gomaxprocs"),
 			UDPClients: rapid.IntRange(2, 12).Draw(rt, "udp clients"),
@@ -507,7 +507,7 @@ func TestC09(t *testing.T) {
 			V.HarnessError(t, "cannot start the -race binary: %v", err)
 		}
 		defer brig.in.stopBin()
-		rcheck(t, "bin-plans", V.N(2, 20), func(rt *rapid.T) {
+		rcheck(t, "bin-plans", V.N(2, 6), func(rt *rapid.T) {
 			plan := c09Plan{
 				Procs:      16,
 				UDPClients: rapid.IntRange(4, 12).Draw(rt, "udp clients"),
